@@ -512,7 +512,7 @@ class SkelEval(Eval):
             r2 = self.norm_flags(r)
             if isinstance(r2, Flags) and isinstance(a, Flags):
                 return a.bits <= r2.bits
-            if isinstance(r, (set, frozenset, dict, list)):
+            if isinstance(r, (set, frozenset, dict, list, tuple)) and not (isinstance(r, tuple) and r and r[0] == 'some'):
                 return a in r
         if m == 'to_uppercase':
             return str(r).upper()
@@ -548,6 +548,8 @@ class SkelEval(Eval):
         if p == 'Ident::new':
             v = self.ev(args[0])
             return Tok(str(v))
+        if p == 'Ident::new_raw':
+            return Tok('r#' + str(self.ev(args[0])))
         if p.startswith('Literal::') and p.endswith('unsuffixed'):
             return Tok(str(int(self.ev(args[0]))))
         if p == 'Literal::string':
